@@ -61,7 +61,8 @@ def record(seed, n_traces, n_ev, kinds):
         kind = kinds[ti % len(kinds)]
         keys = []
         unicode_keys = ti % 3 == 2      # every third trace: text keys with non-ASCII characters, some longer than 64 characters
-        while len(keys) < rnd.randint(5, 9):
+        dense = kind in ("cko", "ccko") and (ti // len(kinds)) % 2 == 0      # small cuckoo tables that fill up: evictions and rejected additions
+        while len(keys) < (rnd.randint(10, 14) if dense else rnd.randint(5, 9)):
             k = rand_text_key(rnd) if unicode_keys else rand_key(rnd)
             if k not in keys:
                 keys.append(k)
@@ -98,15 +99,16 @@ def record(seed, n_traces, n_ev, kinds):
             obj = cls(width=w, depth=d)
             tr.update(w=w, k=d, mode=mode)
         else:
-            cap, bs, fs = rnd.choice([(8, 2, 1), (16, 2, 2), (11, 3, 3), (32, 1, 2), (3, 2, 1), (2, 2, 2), (5, 1, 1)])
+            cap, bs, fs = rnd.choice([(3, 2, 1), (2, 2, 2), (5, 1, 1), (4, 2, 3), (7, 1, 2)] if dense else [(8, 2, 1), (16, 2, 2), (11, 3, 3), (32, 1, 2), (3, 2, 1), (5, 1, 1)])
             cls = P.CuckooFilter if kind == "cko" else P.CountingCuckooFilter
             m1.random = script
             m2.random = script
             script.load([])
             # the small tables fill up: the rejected additions (no growth allowed, or a "growth" by factor 1 that cannot succeed) are part of the history
-            grow1 = cap <= 5 and rnd.random() < 0.5
-            obj = cls(capacity=cap, bucket_size=bs, max_swaps=5, finger_size=fs, auto_expand=grow1, expansion_rate=1 if grow1 else 2)
-            tr.update(cap=cap, bs=bs, ms=5, fb=8 * fs)
+            grow1 = cap <= 5 and rnd.random() < 0.3
+            ms = rnd.choice([1, 2, 3, 5]) if dense else 5
+            obj = cls(capacity=cap, bucket_size=bs, max_swaps=ms, finger_size=fs, auto_expand=grow1, expansion_rate=1 if grow1 else 2)
+            tr.update(cap=cap, bs=bs, ms=ms, fb=8 * fs)
         if kind in ("bloom", "cbloom") and not unicode_keys:
             # a key two of whose probes land on the same cell (hit once per occurrence by add AND by remove): searched for, since it is rare
             for _ in range(400):
@@ -119,7 +121,7 @@ def record(seed, n_traces, n_ev, kinds):
                     tr["keys"][0] = list(cand)
                     break
         outstanding = {i: 0 for i in range(len(keys))}
-        for _ in range(n_ev):
+        for _ in range(n_ev + 8 if dense else n_ev):
             i = rnd.randrange(max(1, len(keys) - 3))  # the last three keys are probe-only: never added
             if kind == "cbloom" and rnd.random() < 0.3:
                 i = 0                                   # the key with coinciding probes gets its share of additions and removals
@@ -157,11 +159,11 @@ def record(seed, n_traces, n_ev, kinds):
                         obj.add(key, force)
                 else:
                     script.load([rnd.randint(0, 7) for _ in range(60)])
-                    if kind in ("cko", "ccko") and tr["cap"] <= 5:
+                    if dense or tr["cap"] <= 5:
                         i = rnd.randrange(len(keys))       # small tables: all keys, so that they fill
                         key = real_keys[i]
                         ev = {"op": "add", "k": i + 1, "a": 1}
-                    if rnd.random() < 0.3:
+                    if rnd.random() < (0.15 if dense else 0.3):
                         ev = {"op": "rem", "k": i + 1, "a": 0}
                         obj.remove(key)
                     else:
@@ -170,8 +172,10 @@ def record(seed, n_traces, n_ev, kinds):
                         except P.exceptions.CuckooFilterFullError:
                             ev = {"op": "fail", "k": i + 1, "a": 0}      # rejected: whatever was tried, the export must be what it was
                             script.draws = 0
-                    if script.draws:  # an eviction happened: the deterministic reference writer does not cover it
-                        break
+                    if script.draws:  # an eviction happened: with growth switched off the recorded draws let the reference writer follow
+                        if grow1 or fs > 3 or obj.capacity != tr["cap"]:      # the kick chain; a rebuild of the table (growth by factor 1) is not followed
+                            break
+                        ev["ch"] = list(script.log)
             except Exception as exc:  # noqa
                 ev["raised"] = repr(exc)
                 tr["ev"].append(dict(ev, bytes=[], hex=[], ans=[], hdr=NOHDR))
@@ -228,7 +232,7 @@ CHECK_DEADLOCK FALSE
 def validate(traces, timeout=1200):
     slim = [{k: v for k, v in tr.items() if k != "text_keys"} for tr in traces]
     for tr in slim:
-        tr["ev"] = [{k: e.get(k, NOHDR) for k in ("op", "k", "a", "bytes", "hex", "ans", "hdr")} for e in tr["ev"]]
+        tr["ev"] = [dict({k: e.get(k, NOHDR) for k in ("op", "k", "a", "bytes", "hex", "ans", "hdr")}, ch=e.get("ch", [])) for e in tr["ev"]]
     verdicts = {}
 
     def on_json(j):
